@@ -29,6 +29,8 @@ PROP(C09) __CPROVER_ensures((g_eval_n == 2 && CONTAINER(RCV) && POS_INT && !IN_R
 PROP(C09) __CPROVER_ensures((g_eval_n == 2 && CONTAINER(RCV) && POS_INT && IN_RANGE && OK && RET == O1) ==> CUR_SIZE == g_eval_size[0] - 1)
 PROP(C09) __CPROVER_ensures((g_eval_n == 2 && CONTAINER(RCV) && POS_INT && IN_RANGE) ==> OK)
 ENS_FRAME2
+/* C02: the call is typed like its receiver, and a successful call returns a value of the receiver's (defined) type */
+PROP(C02) __CPROVER_ensures((OK && g_eval_n >= 1 && V_MAJOR(A1) != NO_TYPE) ==> (V_MAJOR(RET) == V_MAJOR(A1) && V_LEVEL(RET) == V_LEVEL(A1) && (V_MINOR(RET) == V_MINOR(A1) || (V_MAJOR(A1) == ROWTYPE && V_MINOR(A1) == 0 /* opaque tuple declaration */))))
 ;
 
 #include FNS_C
